@@ -37,7 +37,8 @@ evaluator's invariant `MR` holds along every run) and a second walk over the che
 * The plan: `C06Eval.c06_full` quantifies over ARBITRARY optimisation plans and is false as stated —
   a plan that removes a function the program calls makes the call panic at `fnById`
   (`c06_full_is_false_for_arbitrary_plans`).  The theorems here assume `PlanKeepsCalls`:
-  outside the bodies of removed functions no call is bound to a removed function (a decidable check
+  outside the bodies of removed functions and outside removed statements (which the evaluator skips)
+  no call is bound to a removed function (a decidable check
   of the annotated program against the plan; the plan may remove any statement).  That the plan the
   analyses compute has this property is C03's subject.
 * Lookup: the theorems are for the lookup of the current code (`dynamic`) and for `lexical` (equal runs
@@ -51,7 +52,8 @@ open NaijaVerif.Props.C06Eval (Accepted)
 
 /-- The optimisation plan removes no function that kept code calls: a decidable check of the
 annotated program against the plan (`Bridge.keptBlock`: every call outside the bodies of removed
-functions carries the id of a function the plan keeps).  The plan may remove any statement. -/
+functions and outside the statements the plan removes — `Bridge.stmtSkipped`, the evaluator's own skip
+test — carries the id of a function the plan keeps).  The plan may remove any statement. -/
 def PlanKeepsCalls (cfg : RunCfg) (p : Block) : Prop := keptBlock cfg.plan p = true
 
 instance (cfg : RunCfg) (p : Block) : Decidable (PlanKeepsCalls cfg p) := inferInstanceAs (Decidable (_ = true))
@@ -430,6 +432,36 @@ example : Toy.summary (run Toy.cfg 40 (Resolve.resolve sample).root) = ([b!"[4, 
 example (fuel : Nat) : (run Toy.cfg fuel (Resolve.resolve sample).root : Outcome Int).isPanic = false :=
   c06_accepted toyNumOk toy_numLitsParse Toy.cfg rfl (Or.inl rfl) sample (by decide +kernel)
     (planKeepsCalls_none _ rfl _) (by decide +kernel) fuel
+
+/-- A dead call bound to a removed function inside a KEPT function:
+```
+do u() start return 1 end
+do k() start return 2 shout(u()) end
+shout(k())
+```
+`u` (function 1) is unused and removed; `k` is kept and its body holds `shout(u())` (statement 4)
+after the `return` — unreachable, and itself removed by the plan, so the evaluator skips it. -/
+def deadCallText : Bytes := b!"do u() start return 1 end\ndo k() start return 2 shout(u()) end\nshout(k())"
+
+/-- The plan the analysis model computes for it is `⟨[4], [1]⟩`, and it passes `PlanKeepsCalls`
+(the removed statement is exempt); without the statement removal the check fails, and so does a plan
+that removes the called `k`. -/
+example : Accepted (parsed deadCallText) ∧
+    (let r := Resolve.resolve (parsed deadCallText)
+     let p := Analysis.planModel r.root r.facts
+     (p.stmts, p.fns) = ([4], [1])) ∧
+    PlanKeepsCalls { Toy.cfg with plan := some ⟨[4], [1]⟩ } (Resolve.resolve (parsed deadCallText)).root ∧
+    ¬ PlanKeepsCalls { Toy.cfg with plan := some ⟨[], [1]⟩ } (Resolve.resolve (parsed deadCallText)).root ∧
+    ¬ PlanKeepsCalls { Toy.cfg with plan := some ⟨[4], [2]⟩ } (Resolve.resolve (parsed deadCallText)).root ∧
+    Toy.summary (run { Toy.cfg with plan := some ⟨[4], [1]⟩ } 20 (Resolve.resolve (parsed deadCallText)).root)
+      = ([b!"2"], 0) := by
+  decide +kernel
+
+/-- An instance of `c06_accepted` with that plan. -/
+example (fuel : Nat) : (run { Toy.cfg with plan := some ⟨[4], [1]⟩ } fuel
+    (Resolve.resolve (parsed deadCallText)).root : Outcome Int).isPanic = false :=
+  c06_accepted toyNumOk toy_numLitsParse { Toy.cfg with plan := some ⟨[4], [1]⟩ } rfl (Or.inl rfl)
+    (parsed deadCallText) (by decide +kernel) (by decide +kernel) (by decide +kernel) fuel
 
 /-- A number type for which `NumLitsParse _ isNumLexeme` holds (every operation trivial): the
 assumption of `c06_source` is satisfiable. -/
